@@ -154,6 +154,10 @@ struct World {
     out_seq: u8,
     /// payloads handed to the outgoing path per address (for the integrity oracle)
     sent_out: HashMap<u64, Vec<Vec<u8>>>,
+    /// history-based specification of the registry, kept from the operations alone (never from the registry's
+    /// state): per identity the token key and expiry (virtual ms) of its latest registration, erased when another
+    /// identity registers under the same key ("superseded ... until the identity registers again")
+    ledger: [Option<(u64, u64)>; 4],
 }
 
 fn addr(a: u64) -> SocketAddr {
@@ -337,6 +341,7 @@ impl World {
             hs_ctr: 0,
             out_seq: 0,
             sent_out: HashMap::new(),
+            ledger: [None; 4],
         }
     }
     fn t(&self) -> u64 {
@@ -395,6 +400,11 @@ impl World {
             let got2 = SnapTunAuthorization::is_authorized(&*self.reg, now, &self.ids[i]).is_some();
             if want != got || got != got2 {
                 spec.push(("C09:expiry-strict".into(), format!("identity {i}: has_authorization={got} is_authorized={got2} but (expiry > now)={want}")));
+            }
+            // history-based: authorised only while the identity's latest registration is neither lapsed nor superseded
+            let live = matches!(self.ledger[i], Some((_, e)) if e > self.t());
+            if (got || got2) && !live {
+                spec.push(("C09:authorised-after-lapse-or-supersede".into(), format!("identity {i} is authorised at t={} although its latest registration is {} (history ledger {:?})", self.t(), if self.ledger[i].is_some() { "lapsed" } else { "superseded by another identity under the same token key, or absent" }, self.ledger)));
             }
         }
     }
@@ -552,6 +562,14 @@ impl World {
                 let now = self.authz.vnow();
                 let id = self.ids[*i as usize];
                 let r = catch(|| self.reg.register(now, format!("k{k}"), id, Duration::from_millis(*life)));
+                for j in 0..4usize {
+                    if j as u64 != *i && matches!(self.ledger[j], Some((kk, _)) if kk == *k) {
+                        self.ledger[j] = None;
+                    }
+                }
+                if (*i as usize) < 4 {
+                    self.ledger[*i as usize] = Some((*k, self.t() + *life));
+                }
                 let s = match r {
                     Ok(true) => "reg new".into(),
                     Ok(false) => "reg old".into(),
